@@ -1,19 +1,24 @@
 """C14 — heat diffusion (Diffusion, Dirichlet): maximum principle, boundary values, input forms, harmonic limit.
 
-Correspondence: every scenario calls the real estimator (overlay build of /repo's working tree) and sends
-  run  line `c14.fit …`        -> the Lean model (SkNet/Model/Heat.lean) computes values_, values_row_, values_col_
-                                  in exact rationals; compared within TOL (DESIGN section 8; float64 path)
-  spec line `c14.spec_maxp …`  -> the property's predicate (SkNet/Spec/Heat.lean) on the implementation's own output:
-                                  every value within [min seed, max seed], Dirichlet keeps the seeds exactly
-  spec line `c14.spec_harmonic`-> Dirichlet after many rounds against the harmonic extension (solved exactly in Lean
-                                  and verified there before use)
-  spec line `c14.spec_nonexp`  -> one more round never increases the sup-distance to the harmonic extension
-  spec line `c14.spec_forms`   -> the same temperatures as ndarray, list and dict give the same output
+Correspondence: every scenario calls the real estimator (overlay build of /repo's working tree) through
+`fit_predict` — some on an estimator object that has already been fitted on another input — and sends
+  run  line `c14.fit …`          -> the Lean model (SkNet/Model/Heat.lean) computes values_, values_row_, values_col_
+                                    in exact rationals; compared within RUN_TOL (float64 path)
+  spec line `c14.spec_maxp …`    -> the property's predicate (SkNet/Spec/Heat.lean) on the implementation's own output:
+                                    every value within [min seed, max seed] (slack SPEC_TOL), Dirichlet keeps the seeds
+                                    exactly, shapes of values_/values_row_/values_col_; only under the hypotheses
+  spec line `c14.spec_boundary`  -> Dirichlet keeps the seeds exactly: on *every* Dirichlet call that returned
+  spec line `c14.spec_returned`  -> fit_predict(...), predict(), predict(columns=True) against the attributes
+  spec line `c14.spec_harmonic`  -> Dirichlet after many rounds against the harmonic extension (solved exactly in Lean
+                                    and verified there before use); graphs in which every node reaches a seed
+  spec line `c14.spec_nonexp`    -> one more round never increases the sup-distance to the harmonic extension
+  spec line `c14.spec_forms`     -> the same temperatures as ndarray, list and dict give the same output
   run/spec `c14.normalize`, `c14.spec_stochastic` -> `normalize(matrix)` itself: stored entries, rows of L1 norm 1 or null
 Theorems (SkNet/Properties/C14.lean) are about the same model for every graph and every number of rounds.
 """
 import json
 import os
+import sys
 import warnings
 from fractions import Fraction
 
@@ -21,74 +26,100 @@ import numpy as np
 from scipy import sparse
 
 from vlib import graphs
-from vlib.cases import Case, Sub, evaluate as _evaluate
-from vlib.core import enc_list, enc_rat, enc_ratlist, enc_bool, dec_ratlist, VERIF
+from vlib.cases import Case, Sub
+from vlib.core import enc_list, enc_rat, enc_ratlist, enc_bool, dec_ratlist, VERIF, ToolFailure
 
-TOL = Fraction(1, 10 ** 9)          # relative/absolute tolerance of the float64 path: tol * (1 + |x|)
-HARMONIC_TOL = Fraction(1, 10 ** 8)  # distance to the harmonic extension after "many" rounds
-RULE = ('exhaustive digraphs n<=3 (loops n<=2) x non-empty seed sets x {Diffusion, Dirichlet} x n_iter 1..3; sampled n=4 '
-        '(thorough: all n=4); bipartite 0/1 and weighted biadjacency up to 3x3 (thorough 3x4) x row/col seeds; structured '
-        'random graphs n<=12 with integer/dyadic weights, temperatures from {0, 1, 2, 3, 0.5, 2.5, 7, 10, 0.1}, '
-        'init in/out of range, damping in [0,1] and outside, the three input forms; degenerate stream (no seeds, empty '
-        'dict, bad lengths, bad keys, n_iter<=0, empty matrix, sinks, explicit zeros, negative weights); normalize(matrix) itself on '
-        'every distinct matrix above and on signed matrices with explicit zeros; harmonic limit on '
-        'connected undirected graphs n<=8. A case is non-trivial when the estimator returned values, some node is '
-        'not a seed and two initial temperatures differ; distinct = distinct (estimator, matrix, arguments)')
+if hasattr(sys, 'set_int_max_str_digits'):
+    sys.set_int_max_str_digits(0)       # 300 exact rounds give numerators of several thousand digits
+
+# ---- named tolerances (DESIGN section 8: every tolerance is a named constant, printed in the evidence) -------------
+RUN_TOL = Fraction(1, 10 ** 11)       # run lines: |model - impl| <= RUN_TOL * (1 + scale), scale = largest |temperature|
+SPEC_TOL = Fraction(1, 10 ** 12)      # bounds of the maximum principle on float64 outputs: SPEC_TOL * (1 + |x|)
+STOCH_TOL = Fraction(1, 10 ** 12)     # | L1 norm of a normalised row - 1 |
+NONEXP_TOL = Fraction(1, 10 ** 12)    # non-expansiveness: d(k+1) <= d(k) + NONEXP_TOL * (1 + scale)
+HARMONIC_TOL = Fraction(1, 10 ** 10)  # distance to the harmonic extension after "many" rounds, times (1 + scale)
+TOLERANCES = {'RUN_TOL': '1e-11*(1+scale)', 'SPEC_TOL': '1e-12*(1+|x|)', 'STOCH_TOL': '1e-12',
+              'NONEXP_TOL': '1e-12*(1+scale)', 'HARMONIC_TOL': '1e-10*(1+scale)',
+              'observation': 'float64 outputs leave [min seed, max seed] by a few ulps on the unchanged code '
+                             '(Diffusion(20, 0.85) on K7 with seeds {0: 0.1, 1: 0.1}: every value is 0.1 - 4.2e-17); the '
+                             'exact statement is proved over Q, the float outputs are checked with slack SPEC_TOL'}
+
+RULE = ('graphs x seed sets x estimator exhaustive for digraphs n<=3 (loops n<=2) and all non-empty seed sets, with ONE '
+        'random draw of (temperatures, input form, init, n_iter, damping, weights) per combination; sampled n=4 (thorough: '
+        'all n=4, random n=5); bipartite 0/1 and weighted biadjacency up to 3x2 (thorough 3x4) + random up to 6x7, one draw '
+        'of (row/col/values/none seeds, forms, force_bipartite, init, n_iter) each; structured random graphs n<=12 '
+        '(thorough: some n<=20); weights 1 / {1,2,3,5} / dyadic / uniform(0.01,10); dtypes bool, int8, uint8, int32, int64, '
+        'float32, float64 on adjacency and biadjacency; unsorted and duplicate-entry (non-canonical) CSR; containers; '
+        'temperatures from {0,1,2,3,0.5,2.5,7,10,0.1} or uniform(0,10); values as ndarray (float64/float32/int32/bool), list, '
+        'dict (python or numpy keys/values); init None / in / out of range, python int or numpy float; n_iter up to 30 '
+        '(quick: some 100; thorough: 100 and 300 on small graphs); damping in [0,1] and outside; refit of an already fitted '
+        'estimator object; degenerate stream (no seeds, empty dict, bad lengths, bad keys, n_iter<=0, empty matrix, all-zero '
+        'dense matrix, sinks, explicit zeros, negative weights); normalize(matrix) itself on every distinct matrix and on '
+        'signed matrices with explicit zeros; harmonic limit on undirected connected graphs (self-loops kept) and on '
+        'digraphs in which every node reaches a seed, n<=8. A case is non-trivial when the estimator returned values, some '
+        'node is not a seed and two initial temperatures differ; distinct = distinct (estimator, matrix, arguments)')
 ASSUMPTIONS = [
     'weights are compared through the dense denotation of the CSR matrix scipy builds from the input (scipy is the substrate)',
-    'float64 results are compared with the exact rational model within 1e-9*(1+|x|); the bounds of the maximum principle are '
-    'checked on float64 outputs with the same slack (rounding of a convex combination)',
+    'float64 results are compared with the exact rational model within 1e-11*(1+largest temperature); the bounds of the '
+    'maximum principle are checked on float64 outputs with slack 1e-12*(1+|x|) (rounding of convex combinations: the '
+    'literal statement fails by a few ulps on the unchanged code)',
     'the seed set is non-empty when init is None (otherwise the code returns NaN: modelled as an error value, excluded '
     'from the property)',
     'a dict with two keys denoting the same node (k and k-n) is not generated with different values (numpy leaves the '
     'result of repeated indices in an assignment undefined)',
+    'duplicate entries of a non-canonical CSR matrix are generated with the same sign only (with cancelling signed '
+    'duplicates get_norms adds |stored entries|, not |entries|: outside the non-negative weights of C14)',
 ]
 
 PALETTE = [0, 1, 2, 3, 0.5, 2.5, 7, 10, 0.1]
 ALPHAS = [0.5, 0.5, 0.25, 0.75, 1, 0, 0.85, 0.1, 0.125]
+_LEGACY_DTYPE = {'float': 'float64', 'int': 'int64', 'bool': 'bool'}
 
 
 # ----------------------------------------------------------------------------------------------
 # scenarios
 # ----------------------------------------------------------------------------------------------
-def mk_matrix(nr, nc, edges, weights, dtype='float'):
+def mk_matrix(nr, nc, edges, weights):
     if not edges:
         return sparse.csr_matrix((nr, nc), dtype=float)
-    a = sparse.csr_matrix((np.asarray(weights, dtype=float), ([e[0] for e in edges], [e[1] for e in edges])),
-                          shape=(nr, nc))
-    if dtype == 'int':
-        a = a.astype(int)
-    elif dtype == 'bool':
-        a = a.astype(bool)
-    return a
+    return sparse.csr_matrix((np.asarray(weights, dtype=float), ([e[0] for e in edges], [e[1] for e in edges])),
+                             shape=(nr, nc))
+
+
+def mat_desc(a, container='csr'):
+    a = a if sparse.isspmatrix_csr(a) else sparse.csr_matrix(a)
+    return {'shape': list(a.shape), 'indptr': a.indptr.tolist(), 'indices': a.indices.tolist(),
+            'data': [float(x) for x in a.data], 'dtype': str(a.dtype), 'container': container}
 
 
 def scenario(algo, a, values=None, values_row=None, values_col=None, init=None, force_bipartite=False, n_iter=3,
-             alpha=0.5, container='csr'):
-    """A JSON-able description of one call. `a` is a scipy csr matrix. Forms are [kind, payload]."""
-    a = sparse.csr_matrix(a)
-    return {'algo': algo, 'shape': list(a.shape), 'indptr': a.indptr.tolist(), 'indices': a.indices.tolist(),
-            'data': [float(x) for x in a.data], 'dtype': 'bool' if a.dtype == bool else ('int' if a.dtype.kind in 'iu' else 'float'),
-            'values': values, 'values_row': values_row, 'values_col': values_col, 'init': init,
-            'force_bipartite': bool(force_bipartite), 'n_iter': int(n_iter), 'alpha': alpha, 'container': container}
+             alpha=0.5, container='csr', prefit=None):
+    """A JSON-able description of one call. `a` is a scipy csr matrix (kept as stored: order, duplicates, dtype).
+    Forms are [kind, payload] or [kind, payload, variant]. `prefit` = a first fit on the same estimator object."""
+    sc = mat_desc(a, container)
+    sc.update({'algo': algo, 'values': values, 'values_row': values_row, 'values_col': values_col, 'init': init,
+               'force_bipartite': bool(force_bipartite), 'n_iter': int(n_iter), 'alpha': alpha, 'prefit': prefit})
+    return sc
 
 
 def sc_matrix(sc):
-    dt = {'bool': bool, 'int': int, 'float': float}[sc.get('dtype', 'float')]
-    a = sparse.csr_matrix((np.array(sc['data'], dtype=float).astype(dt), np.array(sc['indices'], dtype=np.int32),
-                           np.array(sc['indptr'], dtype=np.int32)), shape=tuple(sc['shape']))
-    return a
+    dt = np.dtype(_LEGACY_DTYPE.get(sc.get('dtype', 'float64'), sc.get('dtype', 'float64')))
+    return sparse.csr_matrix((np.array(sc['data'], dtype=float).astype(dt), np.array(sc['indices'], dtype=np.int32),
+                              np.array(sc['indptr'], dtype=np.int32)), shape=tuple(sc['shape']))
 
 
 def form_to_py(form):
     if form is None:
         return None
-    kind, payload = form
+    kind, payload = form[0], form[1]
+    variant = form[2] if len(form) > 2 else None
     if kind == 'arr':
-        return np.array(payload)
+        return np.array(payload, dtype=np.dtype(variant)) if variant else np.array(payload)
     if kind == 'list':
         return list(payload)
     if kind == 'dict':
+        if variant == 'np':
+            return {np.int64(k) if i % 2 == 0 else np.int32(k): np.float64(v) for i, (k, v) in enumerate(payload)}
         return {k: v for k, v in payload}
     raise ValueError(kind)
 
@@ -96,7 +127,7 @@ def form_to_py(form):
 def enc_form(form):
     if form is None:
         return '_'
-    kind, payload = form
+    kind, payload = form[0], form[1]
     if kind == 'arr':
         return 'a:' + enc_ratlist(Fraction(float(x)) for x in payload)
     if kind == 'list':
@@ -119,7 +150,7 @@ def is_bipartite(sc):
 def form_seeds(form, n):
     """Independent reading of 'temperatures given as array, list or dict': {node: temperature >= 0}, or None if the
     form is not a well-formed description for n nodes."""
-    kind, payload = form
+    kind, payload = form[0], form[1]
     out = {}
     if kind in ('arr', 'list'):
         if len(payload) != n:
@@ -186,41 +217,70 @@ def container_of(a, kind):
     return a
 
 
+def scale_of(sc):
+    """largest |temperature| the call can see (the rounding error of the float path is proportional to it)"""
+    xs = [1.0]
+    for k in ('values', 'values_row', 'values_col'):
+        f = sc.get(k)
+        if f is not None:
+            xs += [abs(float(v)) for v in (f[1] if f[0] != 'dict' else [p[1] for p in f[1]])]
+    if sc.get('init') is not None:
+        xs.append(abs(float(sc['init'])))
+    return Fraction(max(xs))
+
+
+def _kwargs(sc):
+    kw = {}
+    for k in ('values', 'values_row', 'values_col'):
+        if sc.get(k) is not None:
+            kw[k] = form_to_py(sc[k])
+    if sc.get('init') is not None:
+        kw['init'] = np.float64(sc['init']) if sc.get('init_np') else sc['init']
+    if sc.get('force_bipartite'):
+        kw['force_bipartite'] = True
+    return kw
+
+
+def _arr(x):
+    return None if x is None else np.asarray(x, dtype=float)
+
+
 def run_impl(sc, n_iter=None):
-    """Call the estimator; returns ('ok', values_, values_row_|None, values_col_|None) or ('err', name)."""
+    """Call the estimator through `fit_predict` (after a first fit on the same object when `prefit` is given).
+    Returns ('ok', values_, values_row_|None, values_col_|None, (fit_predict, predict(), predict(columns=True)))
+    or ('err', name). Any exception class is an answer (the model only knows a few: the rest shows as a disagreement)."""
     from sknetwork.regression import Diffusion, Dirichlet
     n_iter = sc['n_iter'] if n_iter is None else n_iter
     try:
         with warnings.catch_warnings():
             warnings.simplefilter('ignore')
             est = Diffusion(n_iter=n_iter, damping_factor=sc['alpha']) if sc['algo'] == 'diffusion' else Dirichlet(n_iter=n_iter)
+            pre = sc.get('prefit')
+            if pre is not None:
+                try:
+                    est.fit(container_of(sc_matrix(pre), pre.get('container', 'csr')), **_kwargs(pre))
+                except (ValueError, IndexError, TypeError):
+                    pass
             mat = container_of(sc_matrix(sc), sc.get('container', 'csr'))
-            kw = {}
-            for k in ('values', 'values_row', 'values_col'):
-                if sc[k] is not None:
-                    kw[k] = form_to_py(sc[k])
-            if sc['init'] is not None:
-                kw['init'] = sc['init']
-            if sc['force_bipartite']:
-                kw['force_bipartite'] = True
-            est.fit(mat, **kw)
-            v = np.asarray(est.values_, dtype=float)
-            r = getattr(est, 'values_row_', None)
-            c = getattr(est, 'values_col_', None)
-            if np.isnan(v).any() or (c is not None and np.isnan(np.asarray(c)).any()):
+            fp = est.fit_predict(mat, **_kwargs(sc))
+            v = _arr(est.values_)
+            r = _arr(getattr(est, 'values_row_', None))
+            c = _arr(getattr(est, 'values_col_', None))
+            if np.isnan(v).any() or (c is not None and np.isnan(c).any()):
                 return ('err', 'NaN')
-            return ('ok', v, None if r is None else np.asarray(r, dtype=float), None if c is None else np.asarray(c, dtype=float))
-    except (ValueError, IndexError, TypeError, KeyError, ZeroDivisionError) as e:
+            return ('ok', v, r, c, (_arr(fp), _arr(est.predict()), _arr(est.predict(columns=True))))
+    except Exception as e:      # noqa: an unexpected class is reported with the failing input, not as a tool failure
         return ('err', type(e).__name__)
+
+
+def _e(x):
+    return '_' if x is None else enc_ratlist(Fraction(float(t)) for t in x)
 
 
 def enc_out(res):
     if res[0] == 'err':
         return 'err ' + res[1]
-
-    def e(x):
-        return '_' if x is None else enc_ratlist(Fraction(float(t)) for t in x)
-    return 'ok %s %s %s' % (e(res[1]), e(res[2]), e(res[3]))
+    return 'ok %s %s %s' % (_e(res[1]), _e(res[2]), _e(res[3]))
 
 
 def block_out(res):
@@ -230,15 +290,24 @@ def block_out(res):
     return list(res[1])
 
 
+def seen_nnz(sc):
+    """number of stored entries of the CSR matrix `check_format` builds from the container the code receives"""
+    return int(sparse.csr_matrix(container_of(sc_matrix(sc), sc.get('container', 'csr'))).nnz)
+
+
+def enc_init(sc):
+    return '_' if sc['init'] is None else enc_rat(Fraction(float(sc['init'])))
+
+
 def run_line(sc):
-    return 'c14.fit %s %s %s %s %s %s %s %d %s' % (
-        sc['algo'], enc_sc_matrix(sc), enc_form(sc['values']), enc_form(sc['values_row']), enc_form(sc['values_col']),
-        '_' if sc['init'] is None else enc_rat(Fraction(float(sc['init']))), enc_bool(sc['force_bipartite']),
+    return 'c14.fit %s %s %d %s %s %s %s %s %d %s' % (
+        sc['algo'], enc_sc_matrix(sc), seen_nnz(sc), enc_form(sc['values']), enc_form(sc['values_row']),
+        enc_form(sc['values_col']), enc_init(sc), enc_bool(sc['force_bipartite']),
         sc['n_iter'], enc_rat(Fraction(float(sc['alpha']))))
 
 
 def enc_seeds(seeds):
-    return ','.join('%d=%s' % (k, enc_rat(Fraction(float(v)))) for k, v in sorted(seeds.items()))
+    return ','.join('%d=%s' % (k, enc_rat(Fraction(float(v)))) for k, v in sorted(seeds.items())) or '-'
 
 
 def maxp_applicable(sc, seeds, w):
@@ -268,26 +337,42 @@ def sig_of(sc, clause):
             'clause': clause}
 
 
-def case_of(sc, with_run=True):
-    """run line + maximum-principle spec line for one scenario"""
+def _key(kind, sc):
+    return (kind, json.dumps(sc, sort_keys=True, default=str))
+
+
+def cases_of_scenario(sc, with_run=True):
+    """run line + maximum-principle spec line, + boundary and returned-value spec lines, for one scenario"""
     res = run_impl(sc)
     impl = enc_out(res)
     spec = None
     seeds = abstract_seeds(sc)
     w = block_dense(sc)
     nontriv = False
+    out = []
+    desc = {'kind': 'fit', 'scenario': sc}
     if res[0] == 'ok' and seeds is not None:
         n = w.shape[0]
         nontriv = len(seeds) < n and len(set(seeds.values()) | ({sc['init']} if sc['init'] is not None else set())) > 1
         if maxp_applicable(sc, seeds, w):
             ctx_count('spec:max-principle')
             spec = 'c14.spec_maxp %s %s %s %s %s %s %s %s' % (
-                sc['algo'], enc_sc_matrix(sc), enc_bool(is_bipartite(sc)), enc_seeds(seeds),
-                '_' if sc['init'] is None else enc_rat(Fraction(float(sc['init']))), enc_rat(Fraction(float(sc['alpha']))),
-                enc_rat(TOL), impl[3:])
-    key = ('fit', json.dumps(sc, sort_keys=True, default=str))
-    return Case(key, sig_of(sc, 'max-principle/boundary'), run_line(sc) if with_run else None, impl, spec, nontriv,
-                {'kind': 'fit', 'scenario': sc})
+                sc['algo'], enc_sc_matrix(sc), enc_bool(is_bipartite(sc)), enc_seeds(seeds), enc_init(sc),
+                enc_rat(Fraction(float(sc['alpha']))), enc_rat(SPEC_TOL), impl[3:])
+        if sc['algo'] == 'dirichlet':
+            # `dirichlet_boundary` holds for every graph and every init: checked wherever Dirichlet returned
+            ctx_count('spec:boundary')
+            out.append(Case(_key('boundary', sc), sig_of(sc, 'boundary'), None, impl,
+                            'c14.spec_boundary %d %d %s %s %s' % (sc['shape'][0], sc['shape'][1], enc_bool(is_bipartite(sc)),
+                                                                  enc_seeds(seeds), impl[3:]), nontriv, desc))
+    if res[0] == 'ok':
+        ctx_count('spec:returned')
+        fp, pr, prc = res[4]
+        out.append(Case(_key('returned', sc), sig_of(sc, 'returned-values'), None, impl,
+                        'c14.spec_returned %s %s %s %s' % (impl[3:], _e(fp), _e(pr), _e(prc)), nontriv, desc))
+    main = Case(_key('fit', sc), sig_of(sc, 'max-principle/boundary'), run_line(sc) if with_run else None, impl, spec,
+                nontriv, desc, tol=RUN_TOL * (1 + scale_of(sc)))
+    return [main] + out
 
 
 def forms_case(sc, seeds_by_side):
@@ -306,9 +391,15 @@ def forms_case(sc, seeds_by_side):
 
 
 def make_form(kind, n, seeds, rng=None, filler=-1):
-    """seeds {node: temp} on n nodes in the requested form"""
+    """seeds {node: temp} on n nodes in the requested form (numpy-typed variants when `rng` is given)"""
     if kind in ('arr', 'list'):
-        return [kind, [seeds.get(i, filler) for i in range(n)]]
+        payload = [seeds.get(i, filler) for i in range(n)]
+        if rng is not None and kind == 'arr' and rng.random() < 0.25:
+            if all(float(x) == int(x) for x in payload):
+                return ['arr', [int(x) for x in payload], 'int32']
+            if all(float(np.float32(x)) == float(x) for x in payload):
+                return ['arr', payload, 'float32']
+        return [kind, payload]
     items = [[k, v] for k, v in seeds.items()]
     if rng is not None:
         rng.shuffle(items)
@@ -318,13 +409,15 @@ def make_form(kind, n, seeds, rng=None, filler=-1):
                 items.append([rng.choice(free), -rng.choice([1, 2, 0.5])])   # a negative temperature: ignored
         if rng.random() < 0.15:
             items = [[k - n, v] if rng.random() < 0.5 else [k, v] for k, v in items]   # numpy's negative index
+        if rng.random() < 0.2:
+            return ['dict', items, 'np']
     return ['dict', items]
 
 
 def normalize_case(a):
     """`normalize(matrix)` observed directly: run line (stored entries of every row) + the stochastic clause."""
     from sknetwork.linalg.normalizer import normalize
-    a = sparse.csr_matrix(a)
+    a = a if sparse.isspmatrix_csr(a) else sparse.csr_matrix(a)
     sc = scenario('dirichlet', a)
     g = enc_sc_matrix(sc)
     try:
@@ -334,66 +427,71 @@ def normalize_case(a):
         q.sum_duplicates()
         q.sort_indices()
         impl = 'ok %s %s %s' % (enc_list(q.indptr), enc_list(q.indices), enc_ratlist(Fraction(float(x)) for x in q.data))
-        spec = 'c14.spec_stochastic %s %s %s' % (g, enc_rat(TOL), impl[3:])
+        spec = 'c14.spec_stochastic %s %s %s' % (g, enc_rat(STOCH_TOL), impl[3:])
         ctx_count('spec:stochastic')
-    except (ValueError, IndexError, TypeError, ZeroDivisionError) as e:
+    except Exception as e:      # noqa
         impl, spec = 'err ' + type(e).__name__, None
-    return Case(('normalize', g), {'entry': 'normalize', 'clause': 'row-stochastic'}, 'c14.normalize ' + g, impl, spec,
-                a.nnz > 0, {'kind': 'normalize', 'scenario': sc}, canon='normalize')
+    return Case(('normalize', g, sc['dtype']), {'entry': 'normalize', 'clause': 'row-stochastic'}, 'c14.normalize ' + g, impl,
+                spec, a.nnz > 0, {'kind': 'normalize', 'scenario': sc}, canon='normalize', tol=RUN_TOL * 2)
 
 
-def harmonic_cases(sc, rng, with_nonexp=True):
+def harmonic_cases(sc, rng, with_nonexp=True, k=None, only=None):
     """Dirichlet after many rounds against the harmonic extension; the number of rounds is raised until two runs agree
     (only to choose it: the judgement is the exact solution computed and verified in Lean)."""
     seeds = abstract_seeds(sc)
     out = []
-    n_it = 400
-    prev = run_impl(sc, n_it)
-    if prev[0] != 'ok':
-        return out
-    while n_it < 400000:
-        n_it *= 4
-        cur = run_impl(sc, n_it)
-        if np.max(np.abs(np.array(block_out(cur)) - np.array(block_out(prev)))) <= 1e-13:
-            prev = cur
-            break
-        prev = cur
+    scale = scale_of(sc)
     g = '%s %s %s' % (enc_sc_matrix(sc), enc_bool(is_bipartite(sc)), enc_seeds(seeds))
-    spec = 'c14.spec_harmonic %s %s %s' % (g, enc_rat(HARMONIC_TOL), enc_ratlist(Fraction(float(x)) for x in block_out(prev)))
-    ctx_count('spec:harmonic-limit')
-    ctx_count('harmonic-rounds:%d' % n_it)
-    sc2 = dict(sc, n_iter=n_it)
-    out.append(Case(('harmonic', json.dumps(sc2, sort_keys=True, default=str)), sig_of(sc, 'harmonic-limit'), None,
-                    enc_out(prev), spec, True, {'kind': 'harmonic', 'scenario': sc2}))
-    if with_nonexp:
-        k = rng.choice([1, 2, 3, 5, 8, 13])
+    if only != 'nonexp':
+        n_it = 400
+        prev = run_impl(sc, n_it)
+        if prev[0] != 'ok':
+            return out
+        while n_it < 400000:
+            n_it *= 4
+            cur = run_impl(sc, n_it)
+            if np.max(np.abs(np.array(block_out(cur)) - np.array(block_out(prev)))) <= 1e-13:
+                prev = cur
+                break
+            prev = cur
+        spec = 'c14.spec_harmonic %s %s %s' % (g, enc_rat(HARMONIC_TOL * (1 + scale)),
+                                               enc_ratlist(Fraction(float(x)) for x in block_out(prev)))
+        ctx_count('spec:harmonic-limit')
+        ctx_count('harmonic-rounds:%d' % n_it)
+        sc2 = dict(sc, n_iter=n_it)
+        out.append(Case(_key('harmonic', sc2), sig_of(sc, 'harmonic-limit'), None, enc_out(prev), spec, True,
+                        {'kind': 'harmonic', 'scenario': sc2}))
+    if with_nonexp and only != 'harmonic':
+        k = rng.choice([1, 2, 3, 5, 8, 13]) if k is None else k
         r1, r2 = run_impl(sc, k), run_impl(sc, k + 1)
         if r1[0] == 'ok' and r2[0] == 'ok':
-            spec = 'c14.spec_nonexp %s %s %s %s' % (g, enc_rat(TOL), enc_ratlist(Fraction(float(x)) for x in block_out(r1)),
+            spec = 'c14.spec_nonexp %s %s %s %s' % (g, enc_rat(NONEXP_TOL * (1 + scale)),
+                                                    enc_ratlist(Fraction(float(x)) for x in block_out(r1)),
                                                     enc_ratlist(Fraction(float(x)) for x in block_out(r2)))
             ctx_count('spec:non-expansive')
             sc3 = dict(sc, n_iter=k)
-            out.append(Case(('nonexp', json.dumps(sc3, sort_keys=True, default=str)), sig_of(sc, 'non-expansive'), None,
-                            enc_out(r2), spec, True, {'kind': 'nonexp', 'scenario': sc3}))
+            out.append(Case(_key('nonexp', sc3), sig_of(sc, 'non-expansive'), None, enc_out(r2), spec, True,
+                            {'kind': 'nonexp', 'scenario': sc3}))
     return out
 
 
 # ----------------------------------------------------------------------------------------------
-# comparison
+# comparison / evaluation
 # ----------------------------------------------------------------------------------------------
-def _close(m, i):
-    return abs(m - i) <= TOL * (1 + abs(m))
+def _close(m, i, tol):
+    return abs(m - i) <= tol
 
 
-def _same(c, model, impl, spec_ok):
+def _same(c, model, impl):
     if model.startswith('err') or impl.startswith('err'):
         return model == impl
+    tol = c.tol if c.tol is not None else RUN_TOL * 2
     mt, it = model.split(' '), impl.split(' ')
     if c.canon == 'normalize':
         if len(mt) != 4 or len(it) != 4 or mt[1] != it[1] or mt[2] != it[2]:
             return False
         x, y = dec_ratlist(mt[3]), dec_ratlist(it[3])
-        return len(x) == len(y) and all(_close(p, q) for p, q in zip(x, y))
+        return len(x) == len(y) and all(_close(p, q, tol) for p, q in zip(x, y))
     if len(mt) != 4 or len(it) != 4 or mt[0] != 'ok' or it[0] != 'ok':
         return False
     for a, b in zip(mt[1:], it[1:]):
@@ -402,20 +500,51 @@ def _same(c, model, impl, spec_ok):
         if a == '_':
             continue
         x, y = dec_ratlist(a), dec_ratlist(b)
-        if len(x) != len(y) or not all(_close(p, q) for p, q in zip(x, y)):
+        if len(x) != len(y) or not all(_close(p, q, tol) for p, q in zip(x, y)):
             return False
     return True
 
 
 def evaluate(ctx, cases):
-    _evaluate(ctx, cases, same=_same)
+    """As vlib.cases.evaluate, with the tolerance of the case, and with a driver answer that signals a mismatch of
+    preconditions between Python and Lean (`pre-fails …`, `bad-args`, unknown command) treated as a tool failure:
+    it is a bug of the harness, never a verdict about the code."""
+    lines, idx = [], []
+    for c in cases:
+        idx.append(len(lines))
+        if c.run:
+            lines.append(c.run)
+        if c.spec:
+            lines.append(c.spec)
+    answers = ctx.lean(lines)
+    for c, i in zip(cases, idx):
+        model = answers[i] if c.run else None
+        ctx.case(c.key, c.nontrivial, sample={'request': c.run or c.spec, 'model': model, 'impl': c.impl})
+        ctx.count('entry:' + str(c.sig.get('entry')))
+        ctx.count('answer:' + ('error' if str(c.impl).startswith('err') else 'ok'))
+        spec_ok = True
+        if c.spec:
+            sp = answers[i + (1 if c.run else 0)]
+            if sp.startswith(('pre-fails', 'bad-args', 'unknown-cmd')):
+                raise ToolFailure('driver refused spec line %r -> %r' % (c.spec[:400], sp))
+            if sp != 'holds':
+                spec_ok = False
+                ctx.spec_fail(c.sig, c.desc, {'spec_line': c.spec, 'spec_answer': sp, 'impl': c.impl, 'model': model})
+        if not c.run:
+            continue
+        if model.startswith('unknown-cmd') or model == 'bad-args':
+            raise ToolFailure('driver rejected request %r -> %r' % (c.run[:400], model))
+        if model != c.impl and not _same(c, model, c.impl) and spec_ok:
+            ctx.disagree(c.sig, c.desc, model, c.impl, c.run)
 
 
 # ----------------------------------------------------------------------------------------------
 # generators
 # ----------------------------------------------------------------------------------------------
 def pick_temps(rng, nodes, mode=None):
-    mode = mode or rng.choice(['positive', 'withzero', 'any', 'any'])
+    mode = mode or rng.choice(['positive', 'withzero', 'any', 'any', 'any', 'uniform'])
+    if mode == 'uniform':
+        return {i: rng.uniform(0, 10) for i in nodes}
     pal = {'positive': [1, 2, 3, 0.5, 2.5, 7, 10, 0.1], 'withzero': [0, 0, 1, 2, 5], 'any': PALETTE}[mode]
     return {i: rng.choice(pal) for i in nodes}
 
@@ -426,24 +555,92 @@ def pick_init(rng, seeds):
         return None
     lo, hi = min(seeds.values()), max(seeds.values())
     if r < 0.85:
-        return rng.choice([lo, hi, (lo + hi) / 2, lo + (hi - lo) / 4])
+        x = rng.choice([lo, hi, (lo + hi) / 2, lo + (hi - lo) / 4])
+        return int(x) if float(x) == int(x) and rng.random() < 0.5 else x      # a python int now and then
     return rng.choice([hi + 1, lo - 0.5, 100])      # outside the range: run line only
 
 
-def square_scenarios(rng, a, seed_sets, algos=('diffusion', 'dirichlet'), n_iters=(1, 2, 3), per=1, forms=None, ctx=None):
+def weights_for(rng, es, mode, symmetric=False):
+    if mode == 'uniform':
+        pal = [rng.uniform(0.01, 10) for _ in range(6)]
+    else:
+        pal = {'ones': [1], 'int': [1, 2, 3, 5], 'dyadic': [1, 2, 0.5, 0.25, 3]}[mode]
+    if symmetric:
+        return graphs.sym_weights(rng, es, pal)
+    return [rng.choice(pal) for _ in es]
+
+
+def pick_wmode(rng):
+    return rng.choice(['ones', 'int', 'int', 'dyadic', 'dyadic', 'uniform'])
+
+
+def cast_dtype(a, rng, wmode, ctx=None, p=0.35):
+    """the same matrix stored with another dtype (values are exactly representable in it)"""
+    if rng.random() >= p:
+        return a
+    dt = {'ones': ['bool', 'int8', 'uint8', 'int32', 'int64', 'float32'], 'int': ['int64', 'int32', 'int8', 'uint8', 'float32'],
+          'dyadic': ['float32'], 'uniform': ['float64']}[wmode]
+    d = rng.choice(dt)
+    if ctx is not None:
+        ctx.count('dtype:' + d)
+    return a.astype(np.dtype(d))
+
+
+def noncanonical_copy(a, rng):
+    """Same matrix, CSR storage with duplicate entries: some stored entries are split into two of the same sign
+    (x = x/2 + x/2 for floats, x = 1 + (x-1) for integers > 1), inserted at random positions of the row."""
+    a = a.tocsr()
+    rows = []
+    integer = a.dtype.kind in 'iub'
+    for i in range(a.shape[0]):
+        ent = []
+        for p in range(a.indptr[i], a.indptr[i + 1]):
+            j, x = int(a.indices[p]), a.data[p]
+            if rng.random() < 0.4 and not (integer and (a.dtype == bool or x <= 1)):
+                parts = [1, x - 1] if integer else [x / 2, x / 2]
+                if not integer and float(parts[0]) * 2 != float(x):
+                    parts = [x]
+                ent += [(j, q) for q in parts]
+            else:
+                ent.append((j, x))
+        rng.shuffle(ent)
+        rows.append(ent)
+    indptr = np.cumsum([0] + [len(r) for r in rows]).astype(np.int32)
+    indices = np.array([j for r in rows for j, _ in r], dtype=np.int32)
+    data = np.array([x for r in rows for _, x in r], dtype=a.dtype)
+    out = sparse.csr_matrix((data, indices, indptr), shape=a.shape)
+    out.has_sorted_indices = False
+    return out
+
+
+def storage_variant(a, rng, ctx=None):
+    r = rng.random()
+    if r < 0.25:
+        if ctx is not None:
+            ctx.count('storage:unsorted')
+        return graphs.unsorted_copy(a, rng)
+    if r < 0.45:
+        if ctx is not None:
+            ctx.count('storage:duplicates')
+        return noncanonical_copy(a, rng)
+    return a
+
+
+def square_scenarios(rng, a, seed_sets, algos=('diffusion', 'dirichlet'), n_iters=(1, 2, 3), forms=None, ctx=None):
     n = a.shape[0]
     out = []
     for nodes in seed_sets:
         for algo in algos:
-            for _ in range(per):
-                seeds = pick_temps(rng, nodes)
-                kind = rng.choice(forms or ['arr', 'list', 'dict', 'dict'])
-                form = make_form(kind, n, seeds, rng, filler=rng.choice([-1, -1, -2, -0.5]))
-                sc = scenario(algo, a, values=form, init=pick_init(rng, seeds), n_iter=rng.choice(n_iters),
-                              alpha=rng.choice(ALPHAS) if algo == 'diffusion' else 0.5)
-                out.append(sc)
-                if ctx is not None:
-                    ctx.count('form:' + kind)
+            seeds = pick_temps(rng, nodes)
+            kind = rng.choice(forms or ['arr', 'list', 'dict', 'dict'])
+            form = make_form(kind, n, seeds, rng, filler=rng.choice([-1, -1, -2, -0.5]))
+            sc = scenario(algo, a, values=form, init=pick_init(rng, seeds), n_iter=rng.choice(n_iters),
+                          alpha=rng.choice(ALPHAS) if algo == 'diffusion' else 0.5)
+            if sc['init'] is not None and rng.random() < 0.3:
+                sc['init_np'] = True
+            out.append(sc)
+            if ctx is not None:
+                ctx.count('form:' + kind + (':' + form[2] if len(form) > 2 else ''))
     return out
 
 
@@ -478,44 +675,65 @@ def bip_scenarios(rng, b, count, ctx=None):
     return out
 
 
+def prefit_desc(rng, bipartite):
+    """a first input for the same estimator object: of the *other* kind than the scenario it precedes"""
+    if bipartite:
+        a = mk_matrix(3, 3, [(0, 1), (1, 2), (2, 0), (0, 2)], [1, 2, 1, 3])
+        d = mat_desc(a)
+        d.update({'values': ['dict', [[0, 4], [1, 6]]], 'values_row': None, 'values_col': None, 'init': None, 'force_bipartite': False})
+        return d
+    b = mk_matrix(2, 3, [(0, 0), (0, 2), (1, 1), (1, 2)], [1, 2, 1, 1])
+    d = mat_desc(b)
+    d.update({'values': None, 'values_row': ['dict', [[0, 4]]], 'values_col': ['list', [-1, 6, 5]], 'init': None, 'force_bipartite': False})
+    return d
+
+
 def degenerate_scenarios(rng):
     a = mk_matrix(3, 3, [(0, 1), (1, 2), (2, 0), (0, 2)], [1, 2, 1, 3])
     sink = mk_matrix(3, 3, [(0, 1), (2, 0), (2, 1)], [1, 1, 2])
     expl0 = sparse.csr_matrix((np.array([1., 0., 2., 0., 1.]), np.array([1, 2, 0, 1, 0]), np.array([0, 2, 3, 5])), shape=(3, 3))
+    only0 = sparse.csr_matrix((np.array([0., 0.]), np.array([1, 0]), np.array([0, 1, 2, 2])), shape=(3, 3))
     neg = mk_matrix(3, 3, [(0, 1), (0, 2), (1, 0), (2, 0), (2, 1)], [1, -1, 2, 1, 1])
+    dup = sparse.csr_matrix((np.array([0.5, 0.5, 1., 2., 1., 2.]), np.array([1, 1, 2, 0, 0, 1]), np.array([0, 3, 4, 6])), shape=(3, 3))
+    b = mk_matrix(2, 3, [(0, 0), (0, 2), (1, 1)], [1, 2, 1])
     out = []
     for algo in ('diffusion', 'dirichlet'):
         for v in (['dict', []], ['dict', [[5, 1]]], ['dict', [[-4, 1]]], ['list', [1, 2]], ['arr', [1, 0, 1, 0]],
                   ['dict', [[0, -1]]], ['list', [-1, -1, -1]], ['dict', [[-1, 3], [0, 1]]], None,
-                  ['dict', [[0, 2], [1, -3]]], ['arr', [-2, 4, -0.5]]):
+                  ['dict', [[0, 2], [1, -3]]], ['arr', [-2, 4, -0.5]], ['arr', [1, 0, 1], 'bool'], ['arr', [2, -1, 0], 'int32'],
+                  ['dict', [[0, 1.5], [2, 0]], 'np'], ['list', [3, 3, 3]]):
             out.append(scenario(algo, a, values=v, n_iter=2))
             out.append(scenario(algo, a, values=v, n_iter=1, init=1.5))
+        out.append(scenario(algo, a, values=['dict', [[0, 1], [2, 3]]], n_iter=2, init=0))       # init = 0 is not "no init"
+        out.append(scenario(algo, a, values=['dict', [[0, 0], [2, 3]]], n_iter=2, init=2))       # a python int
         for k in (0, -1):
             out.append(scenario(algo, a, values=['dict', [[0, 1]]], n_iter=k))
         out.append(scenario(algo, sparse.csr_matrix((3, 3)), values=['dict', [[0, 1]]]))
-        for m in (sink, expl0, neg):
+        for cont in ('csr', 'dense', 'lil', 'coo'):
+            # stored zeros only: `check_format` sees them in a sparse container, not in a dense one
+            out.append(scenario(algo, only0, values=['dict', [[0, 1]]], n_iter=1, container=cont))
+        for m in (sink, expl0, neg, dup):
             for v in (['dict', [[0, 2], [2, 3]]], ['list', [-1, 4, -1]], ['arr', [1, -1, 5]]):
                 out.append(scenario(algo, m, values=v, n_iter=rng.choice([1, 2, 3])))
         for df in (2, -1, 1.5):
             out.append(scenario('diffusion', a, values=['dict', [[0, 1], [1, 0]]], n_iter=2, alpha=df))
         # rectangular / forced bipartite refusals
-        b = mk_matrix(2, 3, [(0, 0), (0, 2), (1, 1)], [1, 2, 1])
         for kw in ({'values_row': ['list', [1, 2, 3]]}, {'values_col': ['list', [1, 2]]}, {'values_row': ['dict', [[2, 1]]]},
                    {'values_col': ['dict', [[3, 1]]]}, {'values': ['arr', [1, 0, 2, 1, 1]]}, {},
                    {'values': ['dict', [[0, 2]]], 'values_row': ['dict', [[1, 1]]]}, {'values_col': ['dict', [[-1, 4]]]}):
             out.append(scenario(algo, b, n_iter=2, **kw))
         for cont in ('dense', 'coo', 'csc', 'lil'):
             out.append(scenario(algo, a, values=['dict', [[0, 1], [2, 0]]], n_iter=2, container=cont))
-        for dt in ('int', 'bool'):
-            out.append(scenario(algo, a.astype({'int': int, 'bool': bool}[dt]), values=['dict', [[0, 1], [2, 0]]], n_iter=3))
+            out.append(scenario(algo, dup, values=['dict', [[0, 1], [2, 0]]], n_iter=2, container=cont))
+        for dt in ('int64', 'bool', 'int8', 'uint8', 'int32', 'float32'):
+            out.append(scenario(algo, a.astype(np.dtype(dt)), values=['dict', [[0, 1], [2, 0]]], n_iter=3))
+            out.append(scenario(algo, b.astype(np.dtype(dt)), values_col=['dict', [[0, 1], [2, 0]]], n_iter=3))
+        # the same estimator object fitted twice: nothing of the first fit may survive
+        out.append(scenario(algo, a, values=['dict', [[0, 1], [2, 0]]], n_iter=2, prefit=prefit_desc(rng, False)))
+        out.append(scenario(algo, b, values_row=['dict', [[0, 1]]], values_col=['dict', [[1, 3]]], n_iter=2, prefit=prefit_desc(rng, True)))
+        out.append(scenario(algo, b, n_iter=2, prefit=prefit_desc(rng, True)))
+        out.append(scenario(algo, a, values=['list', [1, 2]], n_iter=2, prefit=prefit_desc(rng, False)))      # refused refit
     return out
-
-
-def weights_for(rng, es, mode, symmetric=False):
-    pal = {'ones': [1], 'int': [1, 2, 3, 5], 'dyadic': [1, 2, 0.5, 0.25, 3]}[mode]
-    if symmetric:
-        return graphs.sym_weights(rng, es, pal)
-    return [rng.choice(pal) for _ in es]
 
 
 def is_connected_undirected(n, es):
@@ -533,19 +751,37 @@ def is_connected_undirected(n, es):
     return len(seen) == n
 
 
-def build_cases(ctx):
-    rng = ctx.rng
-    quick = ctx.quick
+def all_reach(n, es, seeds):
+    """every node reaches a seed along the directed edges"""
+    ok = set(seeds)
+    changed = True
+    while changed:
+        changed = False
+        for i, j in es:
+            if j in ok and i not in ok:
+                ok.add(i)
+                changed = True
+    return len(ok) == n
+
+
+def corpus_cases(ctx, rng):
     cases = []
-    scs = []
-    # corpus first
     cpath = os.path.join(VERIF, 'corpus', 'C14.jsonl')
     if os.path.exists(cpath):
         for ln in open(cpath):
             ln = ln.strip()
-            if ln:
+            if ln and not ln.startswith('#'):
                 cases += cases_of_desc(json.loads(ln), rng)
                 ctx.count('corpus')
+    return cases
+
+
+def build_cases(ctx):
+    rng = ctx.rng
+    quick = ctx.quick
+    scs = []
+    # corpus first: failing inputs of past mutants / seeded defects
+    cases = corpus_cases(ctx, rng)
     # 1. exhaustive digraphs n <= 3
     for n in (1, 2, 3):
         for es in graphs.all_digraphs(n, loops=(n <= 2)):
@@ -559,39 +795,54 @@ def build_cases(ctx):
     if quick:
         g4 = rng.sample(g4, 300)
     for es in g4:
-        a = mk_matrix(4, 4, es, weights_for(rng, es, rng.choice(['ones', 'int', 'dyadic'])))
+        wmode = pick_wmode(rng)
+        a = cast_dtype(mk_matrix(4, 4, es, weights_for(rng, es, wmode)), rng, wmode, ctx, p=0.2)
         subs = list(graphs.nonempty_subsets(4))
         scs += square_scenarios(rng, a, rng.sample(subs, 2 if quick else 4), n_iters=(1, 2, 3, 5, 30), ctx=ctx)
         ctx.count('digraph:n=4')
+    # long runs on small graphs (exact numerators of several thousand digits)
+    for _ in range(6 if quick else 60):
+        n = rng.choice([2, 3, 4])
+        es = graphs.random_edges(rng, n, 0.6, directed=True, loops=True)
+        if not es:
+            continue
+        a = mk_matrix(n, n, es, weights_for(rng, es, rng.choice(['int', 'dyadic'])))
+        nodes = sorted(rng.sample(range(n), rng.randint(1, n)))
+        scs += square_scenarios(rng, a, [nodes], n_iters=((100,) if quick else (100, 300)), ctx=ctx)
+        ctx.count('long-run')
     if not quick:
         for _ in range(2000):
             es = graphs.random_edges(rng, 5, rng.choice([0.15, 0.3, 0.5]), directed=True, loops=True)
             if not es:
                 continue
-            a = mk_matrix(5, 5, es, weights_for(rng, es, rng.choice(['ones', 'int', 'dyadic'])))
+            wmode = pick_wmode(rng)
+            a = storage_variant(cast_dtype(mk_matrix(5, 5, es, weights_for(rng, es, wmode)), rng, wmode, ctx), rng, ctx)
             subs = [sorted(rng.sample(range(5), rng.randint(1, 4))) for _ in range(2)]
             scs += square_scenarios(rng, a, subs, n_iters=(1, 2, 3, 5, 8), ctx=ctx)
             ctx.count('digraph:n=5')
     # 3. structured random graphs
-    for name, n, es, w in graphs.suite(rng, 150 if quick else 1500, 3, 12):
+    struct = graphs.suite(rng, 150 if quick else 1500, 3, 12)
+    if not quick:
+        struct += graphs.suite(rng, 40, 13, 20)
+    for name, n, es, w in struct:
         if not es:
             continue
         kind = name.rstrip('0123456789')
         und = kind in graphs.UNDIRECTED_KINDS
-        wmode = rng.choice(['ones', 'int', 'dyadic'])
+        wmode = pick_wmode(rng) if n <= 12 else rng.choice(['ones', 'int'])     # exact arithmetic stays cheap for n > 12
         a = mk_matrix(n, n, es, weights_for(rng, es, wmode, symmetric=und))
-        if wmode != 'dyadic' and rng.random() < 0.3:
-            a = a.astype(bool if wmode == 'ones' else int)
-            ctx.count('dtype:' + str(a.dtype))
-        if rng.random() < 0.3:
-            a = graphs.unsorted_copy(a, rng)
+        a = storage_variant(cast_dtype(a, rng, wmode, ctx), rng, ctx)
         subs = [sorted(rng.sample(range(n), rng.randint(1, max(1, n // 2)))) for _ in range(2)]
-        new = square_scenarios(rng, a, subs, n_iters=(1, 2, 3, 4, 7, 12, 20), ctx=ctx)
+        new = square_scenarios(rng, a, subs, n_iters=(1, 2, 3, 4, 7, 12, 20) if n <= 12 else (1, 2, 3, 5), ctx=ctx)
         if rng.random() < 0.15:
             cont = rng.choice(['dense', 'coo', 'csc', 'lil'])
             for sc in new:
                 sc['container'] = cont
             ctx.count('container:' + cont)
+        if rng.random() < 0.15:
+            for sc in new:
+                sc['prefit'] = prefit_desc(rng, False)
+            ctx.count('refit:bipartite-then-square')
         scs += new
         ctx.count('structured:' + kind)
     # 4. bipartite
@@ -603,7 +854,8 @@ def build_cases(ctx):
         elif len(allb) > 600:
             allb = rng.sample(allb, 600)
         for es in allb:
-            b = mk_matrix(nr, nc, es, weights_for(rng, es, rng.choice(['ones', 'int'])))
+            wmode = rng.choice(['ones', 'int'])
+            b = cast_dtype(mk_matrix(nr, nc, es, weights_for(rng, es, wmode)), rng, wmode, ctx, p=0.25)
             scs += bip_scenarios(rng, b, 3 if quick else 6, ctx=ctx)
             ctx.count('bipartite:%dx%d' % (nr, nc))
     for _ in range(100 if quick else 1500):
@@ -611,19 +863,25 @@ def build_cases(ctx):
         es = graphs.random_edges(rng, nr, rng.choice([0.3, 0.5, 0.8]), m=nc)
         if not es:
             continue
-        b = mk_matrix(nr, nc, es, weights_for(rng, es, rng.choice(['int', 'dyadic'])))
-        scs += bip_scenarios(rng, b, 2, ctx=ctx)
+        wmode = pick_wmode(rng)
+        b = storage_variant(cast_dtype(mk_matrix(nr, nc, es, weights_for(rng, es, wmode)), rng, wmode, ctx), rng, ctx)
+        new = bip_scenarios(rng, b, 2, ctx=ctx)
+        if rng.random() < 0.15:
+            for sc in new:
+                sc['prefit'] = prefit_desc(rng, True)
+            ctx.count('refit:square-then-bipartite')
+        scs += new
         ctx.count('bipartite:random')
     # 5. degenerate stream
     deg = degenerate_scenarios(rng)
     ctx.count('degenerate', len(deg))
     scs += deg
     for sc in scs:
-        cases.append(case_of(sc))
+        cases += cases_of_scenario(sc)
     # 5b. `normalize` observed directly on the matrices above (each distinct matrix once) and on signed / zero data
     seen = set()
     for sc in scs:
-        k = (tuple(sc['shape']), tuple(sc['indptr']), tuple(sc['indices']), tuple(sc['data']))
+        k = (tuple(sc['shape']), tuple(sc['indptr']), tuple(sc['indices']), tuple(sc['data']), sc['dtype'])
         if k in seen or len(seen) >= (400 if quick else 4000):
             continue
         seen.add(k)
@@ -650,9 +908,10 @@ def build_cases(ctx):
         cs = {i - nr: t for i, t in s.items() if i >= nr}
         if rs and cs:
             cases.append(forms_case(sc, {'values_row': (nr, rs), 'values_col': (nc, cs)}))
-    # 7. harmonic limit on connected undirected graphs
+    # 7. harmonic limit
     cases += harmonic_suite(ctx, rng, quick)
     ctx.exhaustive = False
+    ctx.extra['tolerances'] = TOLERANCES
     for k, v in _COUNTS.items():
         ctx.count(k, v)
     _COUNTS.clear()
@@ -670,9 +929,9 @@ def harmonic_suite(ctx, rng, quick, small_only=False):
         todo = rng.sample(todo, 35)
     if not small_only:
         for name, n, es, w in graphs.suite(rng, 30 if quick else 250, 3, 8,
-                                           kinds=['path', 'cycle', 'star', 'clique', 'grid', 'blocks', 'random_undirected']):
-            es = [e for e in es if e[0] != e[1]]
-            if es and is_connected_undirected(n, es):
+                                           kinds=['path', 'cycle', 'star', 'clique', 'grid', 'blocks', 'random_undirected',
+                                                  'selfloops']):
+            if es and is_connected_undirected(n, es):      # self-loops are kept: they must not spoil the limit
                 todo.append((n, es))
     for n, es in todo:
         a = mk_matrix(n, n, es, graphs.sym_weights(rng, es, [1, 1, 2, 3]))
@@ -680,7 +939,23 @@ def harmonic_suite(ctx, rng, quick, small_only=False):
         seeds = pick_temps(rng, nodes)
         sc = scenario('dirichlet', a, values=make_form(rng.choice(['arr', 'list', 'dict']), n, seeds), init=pick_init(rng, seeds))
         cases += harmonic_cases(sc, rng)
-        ctx.count('harmonic:n=%d' % n)
+        ctx.count('harmonic:n=%d' % n + (':selfloop' if any(i == j for i, j in es) else ''))
+    # directed graphs in which every node reaches a seed (`harmonic_unique_of_reach` covers them)
+    made = 0
+    for _ in range(200 if small_only else (400 if quick else 4000)):
+        if made >= (8 if small_only else (15 if quick else 150)):
+            break
+        n = rng.randint(2, 6)
+        es = graphs.random_edges(rng, n, rng.choice([0.3, 0.5]), directed=True, loops=True)
+        nodes = sorted(rng.sample(range(n), rng.randint(1, max(1, n - 1))))
+        if not es or not all_reach(n, es, nodes):
+            continue
+        made += 1
+        a = mk_matrix(n, n, es, [rng.choice([1, 1, 2, 3]) for _ in es])
+        seeds = pick_temps(rng, nodes)
+        sc = scenario('dirichlet', a, values=make_form(rng.choice(['arr', 'list', 'dict']), n, seeds), init=pick_init(rng, seeds))
+        cases += harmonic_cases(sc, rng)
+        ctx.count('harmonic:directed')
     # bipartite: the block graph is undirected
     for _ in range(10 if quick else 100):
         nr, nc = rng.randint(1, 3), rng.randint(1, 4)
@@ -703,17 +978,28 @@ def harmonic_suite(ctx, rng, quick, small_only=False):
     return cases
 
 
+def _norm_sc(sc):
+    sc = dict(sc)
+    for k, d in (('prefit', None), ('container', 'csr'), ('dtype', 'float64'), ('values', None), ('values_row', None),
+                 ('values_col', None), ('init', None), ('force_bipartite', False), ('alpha', 0.5), ('n_iter', 3)):
+        sc.setdefault(k, d)
+    return sc
+
+
 def cases_of_desc(desc, rng):
+    """the cases of one recorded description (replay file or corpus line): the recorded call, nothing redrawn"""
     kind = desc.get('kind')
-    sc = desc['scenario']
+    sc = _norm_sc(desc['scenario'])
     if kind == 'normalize':
         return [normalize_case(sc_matrix(sc))]
     if kind == 'forms':
         sbs = {k: (v[0], {int(a): b for a, b in v[1]}) for k, v in desc['seeds_by_side'].items()}
         return [forms_case(sc, sbs)]
-    if kind in ('harmonic', 'nonexp'):
-        return harmonic_cases(dict(sc, n_iter=10), rng)
-    return [case_of(sc)]
+    if kind == 'nonexp':
+        return harmonic_cases(sc, rng, k=sc['n_iter'], only='nonexp')
+    if kind == 'harmonic':
+        return harmonic_cases(sc, rng, only='harmonic')
+    return cases_of_scenario(sc)
 
 
 def run(ctx):
@@ -742,9 +1028,11 @@ def search(ctx, pending):
         for es in graphs.all_bipartite(nr, nc):
             if es:
                 scs += bip_scenarios(rng, mk_matrix(nr, nc, es, [1 + (k % 2) for k in range(len(es))]), 6)
-    cases = [case_of(sc, with_run=False) for sc in scs]
-    cases = [c for c in cases if c.spec]
+    cases = []
+    for sc in scs:
+        cases += [c for c in cases_of_scenario(sc, with_run=False) if c.spec]
     cases += harmonic_suite(Sub(ctx), rng, True, small_only=True)
+    _COUNTS.clear()
     sub = Sub(ctx)
     evaluate(sub, cases)
     return sub.found()
@@ -756,3 +1044,4 @@ def replay(ctx, payload):
         evaluate(ctx, cases_of_desc(desc, ctx.rng))
     else:
         evaluate(ctx, build_cases(ctx))
+    _COUNTS.clear()
